@@ -3,7 +3,7 @@
 use crate::eterm::{E, bx};
 use crate::util::Rng;
 
-pub const EDITS: [&str; 8] = ["tweak-literal", "flip-boolean", "drop-last-definition", "swap-definitions", "swap-branches", "duplicate-first-definition-value", "swap-operands", "change-operator"];
+pub const EDITS: [&str; 9] = ["flip-implicit", "tweak-literal", "flip-boolean", "drop-last-definition", "swap-definitions", "swap-branches", "duplicate-first-definition-value", "swap-operands", "change-operator"];
 
 fn count(e: &E) -> usize {
     e.size()
@@ -33,6 +33,8 @@ pub fn edit(e: &E, r: &mut Rng) -> Option<(E, &'static str)> {
         let delta = 1 + r.below(3) as i64;
         let mut done = false;
         let out = at(e, target, &mut 0, &mut done, &mut |x| match (kind, x) {
+            ("flip-implicit", E::Pi(n, im, d, b)) => Some(E::Pi(n.clone(), !*im, d.clone(), b.clone())),
+            ("flip-implicit", E::Lam(n, im, d, b)) => Some(E::Lam(n.clone(), !*im, d.clone(), b.clone())),
             ("tweak-literal", E::Lit(v)) => Some(E::Lit(v + delta)),
             ("flip-boolean", E::True) => Some(E::False),
             ("flip-boolean", E::False) => Some(E::True),
